@@ -145,12 +145,16 @@ def _is_none(ns, name):
 
 
 def _draws(c, prim):
+    if prim == 'random.randrange':       # any uniform integer draw (randrange(n) / randint(0, n-1)); 'arg' is the number of outcomes
+        return [dict(e, arg=e['hi'] - e['lo'] + 1, value=e['value'] - e['lo']) for e in c.events
+                if e['kind'] == 'draw' and e.get('uniform_int')]
     return [e for e in c.events if e['kind'] == 'draw' and e['prim'] == prim]
 
 
 def _geo_law(c):
-    """full reservoir: exactly one acceptance draw u; replaced iff u <= p; then one slot draw over the whole
-    range, x (and y) written at that slot and nowhere else; fill phase: appended, no draw"""
+    """full reservoir: exactly one acceptance draw u; replaced if u < p, kept if u > p (the boundary u == p has
+    probability zero: `<=` and `<` are both fine); then one slot draw over the whole range, x (and y) written at that slot
+    and nowhere else; fill phase: appended, no draw"""
     o, n = c.old, c.new
     us, rs = _draws(c, 'random.random'), _draws(c, 'random.randrange')
     full = o._storage_x.n >= o.size
@@ -160,11 +164,10 @@ def _geo_law(c):
     if len(us) != 1 or len(rs) > 1:
         return False
     u = us[0]['value']
-    accept = u <= o.constant_probability
     if not rs:
-        return land(full, lnot(accept), n._storage_x.t == o._storage_x.t, n._storage_y.t == o._storage_y.t)
+        return land(full, u >= o.constant_probability, n._storage_x.t == o._storage_x.t, n._storage_y.t == o._storage_y.t)
     r = rs[0]
-    return land(full, accept, r['arg'] == o.size, n._storage_x.n == o._storage_x.n,
+    return land(full, u <= o.constant_probability, r['arg'] == o.size, n._storage_x.n == o._storage_x.n,
                 n._storage_x.arr == z3.Store(o._storage_x.arr, r['value'], c.a.x.t),
                 implies(o.store_targets, n._storage_y.arr == z3.Store(o._storage_y.arr, r['value'], c.a.y)))
 
